@@ -281,17 +281,58 @@ def fval(x):
     return float(x).hex()
 
 
+def message_kind(msg):
+    try:
+        from props.c12_regen import message_kind as mk
+    except ImportError:
+        sys.path.insert(0, os.path.dirname(os.path.abspath(__file__)))
+        from c12_regen import message_kind as mk
+    return mk(msg)
+
+
+def attempt_len(fn):
+    """like attempt(); an error also carries the class of its message (first line only)"""
+    try:
+        return {"ok": fn()}
+    except Exception as e:
+        lines = str(e).splitlines()
+        return {"err": errname(e), "kind": message_kind(lines[0] if lines else "")}
+
+
+SMALL_LENGTH = 4096
+
+
+def probe_as_length(ffi, name, cval, sp):
+    """every way of using the NAME of an integer constant / enumerator as an array length inside a type
+    string given at run time.  Each use has its own string (parsed type strings are cached per ffi);
+    `sp` distinguishes the round before lib.<name> is read from the round after.  Item types of size 1:
+    a valid length never makes the array size overflow."""
+    br = "%s[%s]" % (sp, name)
+    r = {"typeof": attempt_len(lambda: ffi.typeof("char" + br).length),
+         "sizeof": attempt_len(lambda: ffi.sizeof("signed char" + br)),
+         "newptr": attempt_len(lambda: ffi.typeof(ffi.new("unsigned char(**)" + br)).item.item.length),
+         "cast": attempt_len(lambda: ffi.typeof(ffi.cast("int8_t(*)" + br, 0)).item.length)}
+    if 0 <= cval <= SMALL_LENGTH:       # really allocate only when the C value is small
+        r["new"] = attempt_len(lambda: len(ffi.new("uint8_t" + br)))
+    return r
+
+
 def probe_module(m, ffi, lib):
     res = {"consts": {}, "enums": {}, "structs": {}, "vars": {}, "funcs": {}, "typedefs": {}}
     for k in m.get("consts", []):
         n = k["name"]
+        pre = probe_as_length(ffi, n, k["cval"], "")
         res["consts"][n] = {"lib": attempt(lambda: getattr(lib, n)),
                             "ffi": attempt(lambda: ffi.integer_const(n)),
                             "lib2": attempt(lambda: getattr(lib, n))}
+        res["consts"][n]["len_pre"] = pre
+        res["consts"][n]["len_post"] = probe_as_length(ffi, n, k["cval"], " ")
     for e in m.get("enums", []):
-        r = {"items": {}}
+        r = {"items": {}, "len_pre": {}, "len_post": {}}
         for n, c, d in e["items"]:
+            r["len_pre"][n] = probe_as_length(ffi, n, c, "")
             r["items"][n] = attempt(lambda: getattr(lib, n))
+            r["len_post"][n] = probe_as_length(ffi, n, c, " ")
         r["relements"] = attempt(lambda: dict(ffi.typeof("enum " + e["name"]).relements))
         r["sizeof"] = attempt(lambda: ffi.sizeof("enum " + e["name"]))
         res["enums"][e["name"]] = r
